@@ -1,3 +1,4 @@
+import Mp.JsonPath
 import Mp.JsonDoc
 import Mp.JsonProofs
 import Mp.ProofsSim
@@ -17,3 +18,5 @@ import Mp.ProofsL3
 #print axioms Mp.GoJson.toGo_ofDoc
 #print axioms Mp.GoJson.parseJSON_of_document
 #print axioms Mp.GoJson.parseJSON_func
+#print axioms Mp.GoJson.sPart_parseJSON
+#print axioms Mp.GoJson.parseJSON_then_path
